@@ -13,6 +13,33 @@ VERIF = os.path.dirname(os.path.dirname(os.path.abspath(__file__)))
 REPO = os.environ.get("VERIF_REPO", "/repo")
 HARNESS = os.path.join(VERIF, "harness")
 TARGET = os.path.join(HARNESS, "target")
+REPO_PREFIX = os.path.realpath(REPO).rstrip("/") + "/"      # prefix of repository frames in tool reports
+
+
+def _mirror_harness_for_alt_repo():
+    """Development aid (VERIF_REPO=<scratch worktree>, used for seeded-change trials while /repo is busy): the harness
+    crates name /repo in their path dependencies, so a copy of the harness sources with those paths rewritten is kept
+    under /var/tmp and built into its own target directory. Registered checks never use this."""
+    global HARNESS, TARGET
+    src = HARNESS
+    dst = os.environ.get("VERIF_ALT_HARNESS", "/var/tmp/vf-scratch/harness-alt")
+    os.makedirs(dst, exist_ok=True)
+    subprocess.run(["rsync", "-a", "--delete", "--exclude", "target*", "--exclude", "Cargo.lock", src + "/", dst + "/"], check=True)
+    for root, dirs, files in os.walk(dst):
+        dirs[:] = [d for d in dirs if not d.startswith("target")]
+        for f in files:
+            if f == "Cargo.toml":
+                p = os.path.join(root, f)
+                t = open(p).read()
+                t2 = t.replace('"/repo/', '"' + REPO_PREFIX)
+                if t2 != t:
+                    open(p, "w").write(t2)
+    HARNESS = dst
+    TARGET = os.path.join(dst, "target")
+
+
+if os.path.realpath(REPO) != "/repo":
+    _mirror_harness_for_alt_repo()
 WORK = os.environ.get("VERIF_TMP", os.path.join(VERIF, ".work"))
 NODE = os.environ.get("VERIF_NODE", "/root/.nvm/versions/node/v22.22.2/bin/node")
 GUARD = "isographlabs_isograph_verif"
